@@ -37,21 +37,44 @@ func absTerm(x *Term) (*Term, *Term) {
 	return Ite(neg, Neg(x), x), neg
 }
 
-// bitBound finds the smallest k in a fixed ladder such that pc => |x| < 2^k.
-func (e *Exec) bitBound(s *State, ax *Term) int {
-	for _, k := range []int{16, 24, 32, 42, 53} {
-		if !e.feasible(s, Cmp(OpUle, BV(64, 1<<uint(k)), ax)) {
-			return k
+// bitBound finds (by binary search over solver queries) the smallest k such
+// that pc => |x| < 2^k (k <= 53; -1 if none) and the largest j such that
+// pc => |x| >= 2^j (j >= 0; -1 if x may be 0).
+func (e *Exec) bitBound(s *State, ax *Term) (int, int) {
+	if e.feasible(s, Cmp(OpUle, BV(64, 1<<53), ax)) {
+		return -1, -1
+	}
+	lo, hi := 1, 53 // invariant: bound holds for hi
+	for lo < hi {
+		mid := (lo + hi) / 2
+		if e.feasible(s, Cmp(OpUle, BV(64, 1<<uint(mid)), ax)) {
+			lo = mid + 1
+		} else {
+			hi = mid
 		}
 	}
-	return -1
+	k := hi
+	// lower bound
+	if e.feasible(s, Eq(ax, BV(64, 0))) {
+		return k, -1
+	}
+	l, h := 0, k-1 // invariant: |x| >= 2^l always holds
+	for l < h {
+		mid := (l + h + 1) / 2
+		if e.feasible(s, Cmp(OpUlt, ax, BV(64, 1<<uint(mid)))) {
+			h = mid - 1
+		} else {
+			l = mid
+		}
+	}
+	return k, l
 }
 
 func (e *Exec) softFloatToInt(s *State, fs *FloatSym, w int, signed bool) Value {
 	switch fs.Kind {
 	case "int":
 		ax, neg := absTerm(fs.Int)
-		k := e.bitBound(s, ax)
+		k, j := e.bitBound(s, ax)
 		if k < 0 {
 			panic(unsupported("float64(x) with |x| possibly >= 2^53"))
 		}
@@ -59,7 +82,7 @@ func (e *Exec) softFloatToInt(s *State, fs *FloatSym, w int, signed bool) Value 
 			return narrow(fs.Int, w)
 		}
 		if len(fs.Ops) == 1 && fs.Ops[0].Op == "mul" && fs.Ops[0].C > 0 {
-			r := mulConstTrunc(ax, k, fs.Ops[0].C)
+			r := mulConstTrunc(ax, k, j, fs.Ops[0].C)
 			return narrow(Ite(neg, Neg(r), r), w)
 		}
 	case "secs":
@@ -68,8 +91,12 @@ func (e *Exec) softFloatToInt(s *State, fs *FloatSym, w int, signed bool) Value 
 		// regime bounds
 		lim1 := BV(64, uint64(1<<23)*1000000000)
 		lim2 := uint64(1<<33) * 1000000000
-		if e.feasible(s, Cmp(OpUle, BV(64, lim2), ad)) {
-			panic(unsupported("Duration.Seconds with |d| possibly >= 2^33 s"))
+		inRange := Cmp(OpUlt, ad, BV(64, lim2))
+		s.symStrN++
+		wild := Var(fmt.Sprintf("secswild!%d!%d", d.ID, s.symStrN), 64)
+		e.h.noteAssumption("Duration.Seconds for |d| >= 2^33 s: result of a following float->int conversion is unconstrained (over-approximation)")
+		pick := func(exact *Term) Value {
+			return narrow(Ite(inRange, exact, wild), w)
 		}
 		sec := BinBV(OpUDiv, ad, BV(64, 1000000000))
 		rem := BinBV(OpURem, ad, BV(64, 1000000000))
@@ -80,14 +107,14 @@ func (e *Exec) softFloatToInt(s *State, fs *FloatSym, w int, signed bool) Value 
 		s.assume(Implies(slack, And(Cmp(OpUle, lim1, ad), Not(Eq(rem, BV(64, 0))))))
 		secp := BinBV(OpAdd, sec, BoolToBV(slack, 64))
 		if len(fs.Ops) == 0 {
-			return narrow(Ite(neg, Neg(secp), secp), w)
+			return pick(Ite(neg, Neg(secp), secp))
 		}
 		if len(fs.Ops) == 2 && fs.Ops[0].Op == "div" && fs.Ops[1].Op == "round" {
 			c := fs.Ops[0].C
 			if c > 1 && c <= 1<<20 && math.Trunc(c) == c && (uint64(c)&(uint64(c)-1)) == 0 {
 				half := uint64(c) / 2
 				r := BinBV(OpUDiv, BinBV(OpAdd, secp, BV(64, half)), BV(64, uint64(c)))
-				return narrow(Ite(neg, Neg(r), r), w)
+				return pick(Ite(neg, Neg(r), r))
 			}
 		}
 	}
@@ -102,7 +129,7 @@ func narrow(x *Term, w int) *Term {
 }
 
 // mulConstTrunc returns trunc(RN(c * x)) as a 64-bit term for 0 <= x < 2^k.
-func mulConstTrunc(x *Term, k int, c float64) *Term {
+func mulConstTrunc(x *Term, k, j int, c float64) *Term {
 	fr, ex := math.Frexp(c) // c = fr * 2^ex, fr in [0.5,1)
 	m := uint64(math.Ldexp(fr, 53))
 	e2 := ex - 53 // c = m * 2^e2
@@ -134,7 +161,14 @@ func mulConstTrunc(x *Term, k int, c float64) *Term {
 		v := BinBV(OpLshr, q, BV(W, uint64(-sh)))
 		return narrowU(v, 64)
 	}
-	for L := k + mbits; L >= 1; L-- {
+	minL := 1
+	if j >= 0 {
+		minL = j + mbits - 1 // P >= 2^j * 2^(mbits-1)
+		if minL < 1 {
+			minL = 1
+		}
+	}
+	for L := k + mbits; L >= minL; L-- {
 		inL := And(Cmp(OpUle, pow(L-1), P), Cmp(OpUlt, P, pow(L)))
 		var val *Term
 		if L <= 53 {
